@@ -595,7 +595,22 @@ func ruleFree(c *Ctx, prefix string, ai *allocImpl) {
 				arg := m[3]
 				errNil, _ := histFact(st, "nil", regexp.MustCompile(`^`+reQ(m[1])+`#1$`))
 				cont, _ := histFact(st, "bool", regexp.MustCompile(`^\(\*net\.IPNet\)\.Contains\(&\$0\.[A-Za-z_]+,`+reQ(arg)+`\)$`))
-				if and3(errNil, cont) != 1 {
+				// the prefix must be (inside) one block: at least as long as the block size, 128 bits wide
+				shorter, wide := -1, -1
+				for _, k := range sortedKeys(st.hist) {
+					f := st.hist[k]
+					if f.Kind == "lt" && strings.HasPrefix(f.X, "(net.IPMask).Size(") && strings.HasSuffix(f.X, "#0") && f.Y == "$0.page" {
+						shorter = b2i(f.Val)
+					}
+					if f.Kind == "eq" && strings.HasPrefix(f.X, "(net.IPMask).Size(") && strings.HasSuffix(f.X, "#1") {
+						if f.Eq == "128" {
+							wide = 1
+						}
+					}
+				}
+				if shorter != 0 || wide != 1 {
+					r.bad = fmt.Sprintf("a block is looked up for a prefix that is not shown to be at least as long as the block size and 128 bits wide (shorter-than-block=%s, 128-bit=%s): a prefix larger than a block does not lie inside any block, yet its base address maps onto one", tri(shorter), tri(wide))
+				} else if and3(errNil, cont) != 1 {
 					r.bad = fmt.Sprintf("the bitmap is indexed with toIndex(%s), an absolute distance from the pool base, without establishing that the address lies inside the pool (Contains=%s, conversion-ok=%s): a prefix below the base maps onto another client's block", shortName(arg), tri(cont), tri(errNil))
 				}
 			} else if m := regexp.MustCompile(`(\(\*[^()]*\)\.toOffset(@t\d+)?\(\$0,.*\))#0`).FindStringSubmatch(ic); m != nil {
